@@ -91,7 +91,7 @@ func canon(v ssa.Value) string {
 type symEnv struct {
 	ints  map[ssa.Value]lin
 	bytes map[ssa.Value]lin
-	last  ssa.Value // most recent []byte append result
+	last  ssa.Value               // most recent []byte append result
 	binds map[ssa.Value]ssa.Value // callees expanded in place: parameter → argument, call → result
 }
 
@@ -511,7 +511,7 @@ func (c *Ctx) codEnc(which map[string]bool) {
 								return false
 							}
 							n, ok := intConst(k.Y)
-							return ok && (k.Op == token.LEQ && n <= pm || k.Op == token.LSS && n <= pm+1)
+							return ok && (k.Op == token.LEQ && n == pm || k.Op == token.LSS && n == pm+1) // exactly the protocol limit: a stricter test refuses a valid packet
 						}) {
 							all = false
 						}
